@@ -2,9 +2,11 @@
 # usage: tools/all.sh quick|thorough  -- runs every check, prints one line each
 tier=${1:-quick}
 bash ./setup.sh >/dev/null 2>&1
+bad=0
 for id in C01 C02 C03 C04 C05 C06 C07 C08 C09 C10 C11 C12 C13 C14 C15 C16 C17 C18 C19 C20; do
   s=$(date +%s)
   out=$(./bin/vcheck $id --tier $tier 2>&1); rc=$?
   echo "$id rc=$rc $(( $(date +%s) - s ))s :: $(echo "$out" | tail -1 | cut -c1-220)"
-  [ $rc -ne 0 ] && echo "$out" | head -20
+  if [ $rc -ne 0 ]; then bad=1; echo "$out" | head -20; fi
 done
+exit $bad
